@@ -173,3 +173,54 @@ fn vx_roundtrip_control<'d, 's, 'e, 't, W: Warn<Warning>>(
         }
     }
 }
+
+// ---- composition for chunk packets (C05 / C06), 0.7: written by ConnectedPacket::write_impl and read back. For the UNCOMPRESSED
+//      output form: same ack, token, resend flag, chunk count, payload bytes, and no warning (except the documented ChunksNoChunks).
+//      When the writer chose Huffman compression the contracts say nothing about the bytes (that path rests on the C07 contract).
+fn vx_roundtrip_chunks<'d, 's, 'e, 't, W: Warn<Warning>>(
+    warn: &mut W,
+    p: &ConnectedPacket<'d>,
+    buffer: BufferRef<'d, 's>,
+    scratch: BufferRef<'e, 't>,
+) where 'd: 'e
+    requires
+        buffer.wf(), buffer.init().len() == 0, buffer.cap() >= 1400,
+        scratch.wf(), scratch.init().len() == 0, scratch.cap() >= 1400,
+        p.ack < 1024,
+        p.type_ is Chunks,
+        p.type_->Chunks_2@.len() <= 1393,
+{
+    let ghost w0 = warn.count();
+    let w = p.write_impl(buffer);
+    assert(w.is_ok());
+    let bytes = w.unwrap();
+    proof {
+        assert(PACKETFLAG_CONTROL == 1u8 && PACKETFLAG_CONNLESS == 8u8 && PACKETFLAG_REQUEST_RESEND == 2u8 && PACKETFLAG_COMPRESSION == 4u8) by (compute_only);
+    }
+    let compressed = bytes[0] & 0b0001_0000 != 0;   // PACKETFLAG_COMPRESSION in the packed header
+    proof {
+        let b = bytes@[0];
+        assert((b & 0b0001_0000 != 0) == (((b & 0b0011_1100) >> 2) & 4u8 != 0)) by (bit_vector);
+        assert(ph_flags(b) == (b & 0b0011_1100) >> 2);
+    }
+    if !compressed {
+        let r = Packet::read_impl(warn, bytes, Some(scratch));
+        assert(r.is_ok());
+        match r.unwrap() {
+            Packet::Connless(_) => { assert(false); }
+            Packet::Connected(q) => {
+                assert(q.ack == p.ack);
+                assert(q.token.0@ =~= p.token.0@);
+                match q.type_ {
+                    ConnectedPacketType::Control(_) => { assert(false); }
+                    ConnectedPacketType::Chunks(rr, num, payload) => {
+                        assert(rr == p.type_->Chunks_0);
+                        assert(num == p.type_->Chunks_1);
+                        assert(payload@ =~= p.type_->Chunks_2@);
+                        assert(num != 0 || rr ==> warn.count() == w0);
+                    }
+                }
+            }
+        }
+    }
+}
